@@ -3,27 +3,37 @@
    the history as operations of Model/CacheSys.v, the implementation's answer to every
    operation in the FULL run, and for the probed lookups the answer the implementation gave on a
    fresh world that had run only the mutations before the probe (no earlier lookup). *)
-From Coq Require Import List Arith Bool.
+From Coq Require Import List Arith NArith Bool.
 Import ListNotations.
 From ZI Require Export Tie.RegCommon Model.CacheSys.
+From ZI Require Import Proofs.CacheSys.
 
-Definition case_t := (graph * list bool * list cop * list (list nat) * list (nat * list nat))%type.
+(* observed answers are binary numbers: unary literals of a few thousand make the case files slow to check *)
+Definition case_t := (graph * list bool * list cop * list (list N) * list (nat * list N))%type.
 
+(* crun_fast = crun (Proofs/CacheSys.v crun_fast_eq, re-stated below): the world is recomputed
+   only when the graph changes *)
 Definition model_out (c : case_t) : list (list nat) :=
-  let '(g, ifs, ops, _, _) := c in crun call (mkCS g ifs []) ops.
+  let '(g, ifs, ops, _, _) := c in crun_fast call (mkCS g ifs []) ops.
+
+Lemma model_out_is_crun g ifs ops obs er :
+  model_out (g, ifs, ops, obs, er) = crun call (mkCS g ifs []) ops.
+Proof. apply crun_fast_eq. Qed.
 
 (* The separator RegSys.step puts between the results and the called subscribers is the unary
-   number 999999; a case file full of such literals does not fit in memory once evaluated, so the
-   harness writes 10001 for it in the observations and the model's answers are normalised the same
-   way before comparing (every genuine number in an answer is below 10000). *)
-Definition norm1 (x : nat) : nat := if Nat.ltb 10000 x then 10001 else x.
+   number 999999; the model's answers are cut at 10001 before they are converted to binary numbers
+   (every genuine number in an answer is below 10000) and the harness writes 10001 for the
+   separator in the observations. *)
+Definition norm1 (x : nat) : N := N.of_nat (if Nat.ltb 10000 x then 10001 else x).
+
+Definition llN_eqb := list_eqb (list_eqb N.eqb).
 
 (* the model's answers = the implementation's answers (full run) *)
 Definition check_model (c : case_t) : bool :=
-  let '(_, _, _, obs, _) := c in llnat_eqb (map (map norm1) (model_out c)) obs.
+  let '(_, _, _, obs, _) := c in llN_eqb (map (map norm1) (model_out c)) obs.
 
 (* the property itself, judged on the implementation's observations only: the answer of every
    probed lookup in the full run equals its answer after the same mutations with no earlier lookup *)
 Definition check_spec (c : case_t) : bool :=
   let '(_, _, _, obs, erased) := c in
-  forallb (fun ia => list_eqb Nat.eqb (nth (fst ia) obs [777777]) (snd ia)) erased.
+  forallb (fun ia => list_eqb N.eqb (nth (fst ia) obs [77777%N]) (snd ia)) erased.
